@@ -1708,7 +1708,7 @@ func parseFieldStrValue(s string) (string, error) {
 		ret.WriteString(s)
 		return ret.String(), nil
 	}
-	return "", nil
+	return "", fmt.Errorf("invalid field value %s", s)
 }
 
 func nextUnescapedChar(s string, ch byte, noEscapeChars, enableTagArray, tagParse bool) int {
